@@ -24,7 +24,7 @@ type stormTask struct {
 
 func runStorm(k int) {
 	id := fmt.Sprintf("S/%d", k)
-	if !hk.Want(id) {
+	if !hk.Want(id) || breakerOpen() {
 		return
 	}
 	rng := hk.Rng("c05", id)
@@ -137,10 +137,7 @@ func runStorm(k int) {
 			d(err)
 		}
 	}
-	ended := make([]bool, len(vs))
-	for j, v := range vs {
-		ended[j] = settle(v, r)
-	}
+	ended := settleAll(vs, r)
 	hk.StressOff()
 	if !observersIdle(n, obs) && r.incon == "" {
 		r.incon = "watchdog: observers not idle"
